@@ -296,6 +296,7 @@ func H_C08_phase_shift_written_back() {
 
 var vfReload struct {
 	cfg           database.TendermintBatchConfig
+	more          []database.TendermintBatchConfig // further keyper configurations (two-eon harness)
 	lastCommitted int64
 }
 
@@ -307,10 +308,15 @@ func vfStubInsertEon8(q *database.Queries, ctx context.Context, arg database.Ins
 
 //verif:stub (*github.com/shutter-network/rolling-shutter/rolling-shutter/keyper/database.Queries).GetBatchConfig sql=getBatchConfig
 func vfStubGetBatchConfig8(q *database.Queries, ctx context.Context, idx int32) (database.TendermintBatchConfig, error) {
-	if idx != vfReload.cfg.KeyperConfigIndex {
-		return database.TendermintBatchConfig{}, pgx.ErrNoRows
+	if idx == vfReload.cfg.KeyperConfigIndex {
+		return vfReload.cfg, nil
 	}
-	return vfReload.cfg, nil
+	for _, c := range vfReload.more {
+		if c.KeyperConfigIndex == idx {
+			return c, nil
+		}
+	}
+	return database.TendermintBatchConfig{}, pgx.ErrNoRows
 }
 
 //verif:stub (*github.com/shutter-network/rolling-shutter/rolling-shutter/keyper/database.Queries).GetLastCommittedHeight sql=getLastCommittedHeight
@@ -337,8 +343,11 @@ func H_C08_reload_equals_memory() {
 	e := &shutterevents.EonStarted{Height: vfI64("event.height"), Eon: vfU64("event.eon"), ActivationBlockNumber: vfU64("event.activation"), KeyperConfigIndex: vfU64("event.config-index")}
 	vfAssume(e.Height >= 0 && e.Height < 1<<40 && e.Eon < 1<<62 && e.KeyperConfigIndex < 1<<31)
 	vfReload.cfg = database.TendermintBatchConfig{KeyperConfigIndex: int32(e.KeyperConfigIndex), Height: vfI64("config.height"), Keypers: shdb.EncodeAddresses(ks), Threshold: int32(vfLen("threshold-minus-1", len(ks)-1) + 1)}
-	// the event is handled while its own block is being applied
-	vfReload.lastCommitted = e.Height - 1
+	// the event is handled while its own block is being applied - or later, while a keyper that was
+	// down works through the backlog: the chain head may be arbitrarily far ahead of the block
+	vfReload.lastCommitted = vfI64("chain-head")
+	vfAssume(vfReload.lastCommitted >= e.Height-1 && vfReload.lastCommitted < 1<<41)
+	vfReload.more = nil
 	vfPh.scheduled, vfPh.commitMsgs, vfPh.polyEvals, vfPh.deleted, vfPh.results = nil, nil, 0, nil, nil
 	vfPh.starts, vfPh.computeOK = [4]int{}, true
 	vfSaved, vfPureStore, vfPureRows, vfEonRows = nil, nil, nil, nil
@@ -361,6 +370,9 @@ func H_C08_reload_equals_memory() {
 		vfReach("not-a-member")
 		return
 	}
+	// applying a block is a function of the block, not of how far the chain has moved on: the new
+	// key generation is in the phase of the event's own block, having dealt exactly once
+	vfAssert(a.pure.Phase == puredkg.Dealing && vfPh.starts == [4]int{1, 0, 0, 0}, "eon-start-puts-the-key-generation-into-the-phase-of-its-own-block")
 	vfAssert(b.startHeight == a.startHeight, "reloaded-eon-start-height-equals-the-one-in-memory")
 	vfAssert(vfDeepEq(b.keypers, a.keypers), "reloaded-keyper-list-equals-the-one-in-memory")
 	vfAssert(!b.dirty && !a.dirty, "nothing-dirty")
@@ -372,6 +384,51 @@ func H_C08_reload_equals_memory() {
 	vfReach("reloaded")
 }
 
+
+// Two key generations of different keyper configurations are active when the keyper restarts
+// (the second eon started before the first one finished): each reloaded instance has its own
+// configuration's keyper list and start height.
+func H_C08_reload_two_eons() {
+	own := vfAny[common.Address]("own")
+	other1, other2 := vfAny[common.Address]("other1"), vfAny[common.Address]("other2")
+	vfAssume(other1 != own && other2 != own && other1 != other2)
+	ks1 := []common.Address{own, other1}
+	ks2 := []common.Address{other2, own}
+	e1 := &shutterevents.EonStarted{Height: vfI64("event1.height"), Eon: vfU64("event1.eon"), ActivationBlockNumber: vfU64("event1.activation"), KeyperConfigIndex: 1}
+	e2 := &shutterevents.EonStarted{Height: vfI64("event2.height"), Eon: vfU64("event2.eon"), ActivationBlockNumber: vfU64("event2.activation"), KeyperConfigIndex: 2}
+	vfAssume(e1.Height >= 0 && e1.Height < e2.Height && e2.Height < 1<<40 && e1.Eon < e2.Eon && e2.Eon < 1<<62)
+	vfAssume(e1.ActivationBlockNumber < 1<<62 && e2.ActivationBlockNumber < 1<<62)
+	vfReload.cfg = database.TendermintBatchConfig{KeyperConfigIndex: 1, Keypers: shdb.EncodeAddresses(ks1), Threshold: 1}
+	vfReload.more = []database.TendermintBatchConfig{{KeyperConfigIndex: 2, Keypers: shdb.EncodeAddresses(ks2), Threshold: 2}}
+	vfPh.scheduled, vfPh.commitMsgs, vfPh.polyEvals, vfPh.deleted, vfPh.results = nil, nil, 0, nil, nil
+	vfPh.starts, vfPh.computeOK = [4]int{}, true
+	vfSaved, vfPureStore, vfPureRows, vfEonRows = nil, nil, nil, nil
+
+	st := NewShuttermintState(vfConf{addr: own})
+	st.isKeyper = true
+	vfReload.lastCommitted = e1.Height - 1
+	vfAssume(st.HandleEvent(context.Background(), nil, e1) == nil)
+	vfReload.lastCommitted = e2.Height - 1
+	vfAssume(st.HandleEvent(context.Background(), nil, e2) == nil)
+	vfAssert(st.Save(context.Background(), nil) == nil, "save-succeeds")
+
+	st2 := NewShuttermintState(vfConf{addr: own})
+	vfAssert(st2.Load(context.Background(), nil) == nil, "load-succeeds")
+	vfAssert(len(st.dkg) == 2 && len(st2.dkg) == 2, "both-eons-active-after-reload")
+	for _, eon := range []uint64{e1.Eon, e2.Eon} {
+		a, ok1 := st.dkg[eon]
+		b, ok2 := st2.dkg[eon]
+		vfAssert(ok1 && ok2, "same-active-eons-after-reload")
+		if !ok1 || !ok2 {
+			return
+		}
+		vfAssert(vfDeepEq(b.keypers, a.keypers), "reloaded-keyper-list-equals-the-one-in-memory")
+		vfAssert(b.startHeight == a.startHeight, "reloaded-eon-start-height-equals-the-one-in-memory")
+		vfAssert(b.pure.Eon == a.pure.Eon && b.pure.NumKeypers == a.pure.NumKeypers && b.pure.Threshold == a.pure.Threshold && b.pure.Keyper == a.pure.Keyper, "reloaded-object-equals-the-one-in-memory")
+	}
+	vfAssert(vfDeepEq(st2.dkg[e1.Eon].keypers, ks1) && vfDeepEq(st2.dkg[e2.Eon].keypers, ks2), "each-reloaded-eon-has-its-own-configuration's-keypers")
+	vfReach("reloaded")
+}
 
 // C20 (first hop): when the key generation of an eon finishes successfully, finalizeDKG queues
 // the eon public key for publication exactly once, under the eon's number; a failed key generation
